@@ -18,6 +18,9 @@ func init() {
 				n = 5000
 			}
 			var out []Case
+			for _, cp := range renderCorpus() {
+				out = append(out, runC08(cp))
+			}
 			for i := 0; i < n; i++ {
 				cfg := p1Cfg{MaxStmts: 6 + i*10/n, Keys: p1Keys, Trace: i%2 == 0, Presenters: true, JSONSafe: i%5 != 0}
 				out = append(out, runC08(genProgFields(r, cfg)))
